@@ -135,6 +135,11 @@ class PrintReader:
                 # optional argument list: handled as varargs
                 self.varargs = True
                 return False
+            v = self.kind_cond(n["c"])
+            if v is True:
+                return self.stmt(n["then"], out)
+            if v is False:
+                return self.stmt(n.get("else"), out)
             raise _Opaque("conditional output (%s)" % c[:40])
         if k in ("for", "while", "rangefor"):
             self.varargs = True
@@ -143,6 +148,69 @@ class PrintReader:
             return False
         self.expr(n, out)
         return False
+
+    def _is_kind_expr(self, e):
+        """data->kind / get_kind() / this->get_kind(): the kind of the node being printed."""
+        while e.get("k") == "cast":
+            e = e["e"]
+        if e.get("k") == "member" and e.get("name") == "kind":
+            return True
+        if e.get("k") == "call" and e.get("name") == "get_kind" and (e.get("recv") is None or
+                                                                      e["recv"].get("k") == "this"):
+            return True
+        return False
+
+    def kind_cond(self, c):
+        """Truth value of a condition that depends only on the kind of the printed node, for self.kind; None if
+        it depends on anything else."""
+        k = c.get("k")
+        if k == "cast":
+            return self.kind_cond(c["e"])
+        if k == "bool":
+            return bool(c["v"])
+        if k == "un" and c.get("op") == "!":
+            v = self.kind_cond(c["e"])
+            return None if v is None else not v
+        if k == "bin" and c.get("op") in ("&&", "||"):
+            a, b = self.kind_cond(c["lhs"]), self.kind_cond(c["rhs"])
+            if c["op"] == "&&":
+                return False if (a is False or b is False) else (True if a and b else None)
+            return True if (a is True or b is True) else (False if a is False and b is False else None)
+        if k == "bin" and c.get("op") in ("==", "!="):
+            for x, y in ((c["lhs"], c["rhs"]), (c["rhs"], c["lhs"])):
+                if self._is_kind_expr(x) and y.get("k") == "ref" and y.get("dk") == "enumerator":
+                    eq = y["name"] == self.kind
+                    return eq if c["op"] == "==" else not eq
+            return None
+        if k == "call" and len(c.get("args", [])) == 1 and self._is_kind_expr(c["args"][0]) and c.get("fn"):
+            # a predicate over kinds: `switch (kind) { case A: case B: return true; default: return false; }`
+            for fn in self.F.fns(c["fn"]):
+                if len(fn["params"]) != 1 or fn.get("body") is None:
+                    continue
+                try:
+                    cases = _cases(fn)
+                except Exception:
+                    return None
+                dflt, hit = None, None
+                for labels, stmts in cases:
+                    rv = None
+                    for x in walk({"k": "block", "s": stmts}):
+                        if x.get("k") == "return" and (x.get("e") or {}).get("k") == "bool":
+                            rv = bool(x["e"]["v"])
+                            break
+                    if self.kind in labels:
+                        hit = rv
+                    if "default" in labels:
+                        dflt = rv
+                if hit is not None:
+                    return hit
+                if dflt is None:
+                    # `default:` may be outside the switch as a trailing `return false;`
+                    tail = [x for x in fn["body"].get("s", []) if x.get("k") == "return"]
+                    if tail and (tail[-1].get("e") or {}).get("k") == "bool":
+                        dflt = bool(tail[-1]["e"]["v"])
+                return dflt
+        return None
 
     def lit(self, e):
         if e.get("k") == "str":
